@@ -91,6 +91,7 @@ def run_episode(args):
         w.serial_noise = random.Random(seed ^ 0x5EA1) if profile.get("serial_noise") else None
         stop_on = profile.get("stop_on_violation", True)
         known = set(profile.get("known_signatures", ()))
+        stop_props = set(profile["stop_props"]) if profile.get("stop_props") else None
         for i in range(steps):
             a = g.next()
             if a[0] == "connect":
@@ -105,7 +106,8 @@ def run_episode(args):
                 break
             if w.dead:
                 break
-            if v and stop_on and any(x.signature not in known for x in v):
+            if v and stop_on and any(x.signature not in known and
+                                     (stop_props is None or set(x.props) & stop_props) for x in v):
                 break
         if profile.get("final_die") and not w.dead and not w.violations and srv.alive():
             live = g.live()
